@@ -58,6 +58,7 @@ def run_history(task):
     nm = NAMINGS[naming_key]
     N = nm["names"]
     pre = nm["prefixes"]
+    F.TWINS.clear()
     fs = F.sfactory.FiltersSet("t", *pre) if pre else F.sfactory.FiltersSet("t")
     for n, d in initfs:
         r0 = F.call(fs.addfilter, N[n], *F.DEFS[d])
@@ -114,6 +115,11 @@ def run_history(task):
             if sorted(fs2.requires) != sorted(before_req):
                 probs.append({"prop": "C11", "step": k, "what": "requires %r became %r" % (before_req, fs2.requires)})
             fs = fs2
+        tw = F.twins_changed()
+        if tw:
+            probs.append({"prop": "C12" if prop != "C11" else "C11", "step": k, "what": "after %s: %s" % (op, tw)})
+            F.TWINS.clear()
+            break
         # ---- compare with the specification
         if kind != "reload" and ret != "any" and got != ret:
             probs.append({"prop": "C12", "step": k, "what": "%s returned %s, list model says %s" % (op, got, ret)})
